@@ -209,6 +209,7 @@ var specC33 = vstat.Spec[c33Case]{
 	Assumptions: []string{"runtime.NumGoroutine() returning to its baseline means the handler's spawned goroutines have finished; a leak verdict is re-checked after a further 20 ms"},
 	Gen:         genC33,
 	Check:       checkC33,
+	Inflight:    true,
 }
 
 func TestC33(t *testing.T)       { vstat.Check(t, specC33) }
